@@ -286,6 +286,7 @@ fn run_one(c: &mut Case) {
         tag_base: 1,
         extras_pre: &gen::EXTRAS_PREAMBLE,
         extras_stream: &[gen::Extra::GetValues, gen::Extra::UnknownType, gen::Extra::ForeignStream, gen::Extra::StaleParams, gen::Extra::OutOfRoleStream],
+        marker: None,
     };
     let mut wire_bytes = Vec::new();
     gen::push_request(&mut c.rng, &mut wire_bytes, &spec_);
